@@ -215,6 +215,13 @@ func isNum(v reflect.Value) bool {
 
 // equal returns true when lhsV and rhsV is same value.
 func equal(lhsV, rhsV reflect.Value) bool {
+	// a nil pointer held in a slice element is a non-nil interface around it: look inside first
+	if lhsV.Kind() == reflect.Interface && !lhsV.IsNil() {
+		lhsV = lhsV.Elem()
+	}
+	if rhsV.Kind() == reflect.Interface && !rhsV.IsNil() {
+		rhsV = rhsV.Elem()
+	}
 	lhsIsNil, rhsIsNil := isNil(lhsV), isNil(rhsV)
 	if lhsIsNil && rhsIsNil {
 		return true
@@ -222,11 +229,12 @@ func equal(lhsV, rhsV reflect.Value) bool {
 	if (!lhsIsNil && rhsIsNil) || (lhsIsNil && !rhsIsNil) {
 		return false
 	}
-	if lhsV.Kind() == reflect.Interface || lhsV.Kind() == reflect.Ptr {
-		lhsV = lhsV.Elem()
-	}
-	if rhsV.Kind() == reflect.Interface || rhsV.Kind() == reflect.Ptr {
-		rhsV = rhsV.Elem()
+	// look through the interface wrapper and one pointer, wherever the operand came from:
+	// a pointer held in a slice element is an interface around the pointer
+	lhsV = unwrapForEqual(lhsV)
+	rhsV = unwrapForEqual(rhsV)
+	if !lhsV.IsValid() || !rhsV.IsValid() {
+		return lhsV.IsValid() == rhsV.IsValid()
 	}
 
 	// Compare a string and a number.
@@ -284,6 +292,21 @@ func equal(lhsV, rhsV reflect.Value) bool {
 	}
 
 	return reflect.DeepEqual(lhsV.Interface(), rhsV.Interface())
+}
+
+// unwrapForEqual returns what equal compares: the value inside an interface, the target
+// of a non-nil pointer, and the value inside the interface such a pointer points to.
+func unwrapForEqual(v reflect.Value) reflect.Value {
+	if v.Kind() == reflect.Interface && !v.IsNil() {
+		v = v.Elem()
+	}
+	if v.Kind() == reflect.Ptr && !v.IsNil() {
+		v = v.Elem()
+	}
+	if v.Kind() == reflect.Interface {
+		v = v.Elem()
+	}
+	return v
 }
 
 // numberFromString returns the number a string denotes for equal:
